@@ -828,6 +828,84 @@ let k_line args =
   | [pkg; key; v; bt; bv] -> go pkg key v (Some (bt, bv))
   | _ -> fail_line "K args"
 
+(* ---------- C10 / C02: W (response plans), V (response value), X (stub status) lines ---------- *)
+(* plan syntax: <status|default>|<gotype>|<hex ctype or ->|<decls or ->|<none|raw|json:<J name>>, plans joined by '+' *)
+let rplans : (string, (rplan * string) list) Hashtbl.t = Hashtbl.create 256
+
+let w_line args =
+  match args with
+  | [pkg; key; plans] ->
+    let parse_plan t =
+      match String.split_on_char '|' t with
+      | [st; gotype; ct; hs; body] ->
+        let b = if body = "none" then BNone else if body = "raw" then BRaw
+          else (let name = String.sub body 5 (String.length body - 5) in
+                BJson (try Hashtbl.find jtypes (pkg ^ " " ^ name) with Not_found -> failwith ("no J type " ^ name))) in
+        ({ rp_status = (if st = "default" then None else Some (z_of_int (int_of_string st)));
+           rp_ctype = (if ct = "-" then None else Some (str_of_hex ct));
+           rp_headers = parse_decls hs; rp_body = b }, gotype)
+      | _ -> failwith "plan" in
+    Hashtbl.replace rplans (pkg ^ " " ^ key) (List.map parse_plan (String.split_on_char '+' plans));
+    "SKIP rplans"
+  | _ -> fail_line "W args"
+
+let dump_rvalue (p : rplan) (v : rvalue) : string =
+  let parts =
+    (match p.rp_status with None -> ["I(" ^ string_of_z v.rv_code ^ ")"] | Some _ -> [])
+    @ (match p.rp_body, v.rv_body with
+        | BJson s, VBJson g -> [dump_gval s g]
+        | BRaw, VBRaw bs -> ["Body(" ^ hex_of_str bs ^ ")"]
+        | _, _ -> [])
+    @ (if p.rp_headers <> [] then ["{" ^ String.concat "," (List.map dump_field v.rv_headers) ^ "}"] else []) in
+  "{" ^ String.concat "," parts ^ "}"
+
+let wire_string (w : wire) : string =
+  let lines = List.sort compare (List.map (fun (k, v) -> string_of_str (canon_key k) ^ ":" ^ string_of_str v ^ "\n") w.w_headers) in
+  let body = match w.w_body with WJson j -> hex (print_json j) | WRaw bs -> hex_of_str bs in
+  string_of_z w.w_status ^ "," ^ (match lines with [] -> "-" | _ -> hex (String.concat "" lines)) ^ "," ^ body
+
+let decode_result (plans : (rplan * string) list) (w : wire) : string =
+  match resp_decode parse_float_oracle parse_time_oracle parse_num_o (List.map fst plans) w with
+  | Ok (i, v) -> let (p, gt) = List.nth plans (int_of_nat i) in gt ^ ":" ^ dump_rvalue p v
+  | Err n -> "Err(" ^ hex_of_str n ^ ")"
+  | ErrOther -> "Err"
+
+let v_line args =
+  match args with
+  | [pkg; key; idx; code; body; hdrs] ->
+    let plans = (try Hashtbl.find rplans (pkg ^ " " ^ key) with Not_found -> failwith ("no plans " ^ key)) in
+    let (p, gt) = List.nth plans (int_of_string idx) in
+    let code_v = if code = "-" then Z0 else z_of_int (int_of_string code) in
+    let body_v = (match p.rp_body with
+        | BNone -> VBNone
+        | BJson s -> VBJson (parse_gval s body)
+        | BRaw -> VBRaw (str_of_hex (String.sub body 5 (String.length body - 6)))) in   (* Body(<hex>) *)
+    let hv = if p.rp_headers = [] then [] else parse_fields (List.map (fun d -> (d.d_sch, d.d_required)) p.rp_headers) hdrs (ref 0) in
+    let v = { rv_code = code_v; rv_headers = hv; rv_body = body_v } in
+    let sent = gt ^ ":" ^ dump_rvalue p v in
+    (match resp_write fmt_float_client fmt_float_o fmt_time_o p v with
+     | None -> "model=Unwritable spec=" ^ sent
+     | Some w -> "model=" ^ decode_result plans w ^ " spec=" ^ sent ^ " wire=" ^ wire_string w)
+  | _ -> fail_line "V args"
+
+let x_line args =
+  match args with
+  | [pkg; key; code; hdrs; body] ->
+    let plans = (try Hashtbl.find rplans (pkg ^ " " ^ key) with Not_found -> failwith ("no plans " ^ key)) in
+    let c = z_of_int (int_of_string code) in
+    let hs = List.filter_map (fun l -> match String.index_opt l ':' with
+        | Some i -> Some (str_of_string (String.sub l 0 i), str_of_string (String.sub l (i + 1) (String.length l - i - 1)))
+        | None -> None) (String.split_on_char '\n' (unhex hdrs)) in
+    let text = if body = "-" then "" else unhex body in
+    (* the wire body in the representation the selected plan reads *)
+    let wb = (match resp_select (List.map fst plans) c with
+        | Some (_, p) -> (match p.rp_body with
+            | BJson _ -> (try WJson (parse_json_text text) with _ -> WRaw (str_of_string text))
+            | _ -> WRaw (str_of_string text))
+        | None -> WRaw (str_of_string text)) in
+    "model=" ^ decode_result plans { w_status = c; w_headers = hs; w_body = wb }
+  | _ -> fail_line "X args"
+
 let dispatch line =
   match List.filter (fun t -> t = "" || t.[0] <> '#') (String.split_on_char ' ' line) with
   | "C19" :: args -> c19 args
@@ -842,6 +920,9 @@ let dispatch line =
   | "E" :: args -> e_line args
   | "U" :: args -> u_line args
   | "K" :: args -> k_line args
+  | "W" :: args -> w_line args
+  | "V" :: args -> v_line args
+  | "X" :: args -> x_line args
   | "R" :: args -> r_line args
   | _ -> fail_line ("unknown case: " ^ line)
 
